@@ -86,3 +86,46 @@ def model_for(ob, timeout_ms=20000, weaken=False):
     s.add(z3.Not(ob.goal))
     r = s.check()
     return (s.model() if r == z3.sat else None), str(r)
+
+
+# ------------------------------------------------------------------------------------------ slicing of open obligations
+def _symbols(f, acc=None):
+    """uninterpreted constants / functions occurring in a formula"""
+    if acc is None: acc = set()
+    seen = set()
+    todo = [f]
+    while todo:
+        t = todo.pop()
+        if t.get_id() in seen: continue
+        seen.add(t.get_id())
+        if z3.is_quantifier(t):
+            todo.append(t.body()); continue
+        if z3.is_app(t):
+            d = t.decl()
+            if d.kind() == z3.Z3_OP_UNINTERPRETED: acc.add(d.name())
+            todo.extend(t.children())
+    return acc
+
+
+def refute_on_slice(ob, timeout_ms=10000):
+    """For an obligation the solvers left open: take the hypotheses connected to the goal through shared uninterpreted
+    symbols.  If that slice is quantifier-free and (slice and not goal) is satisfiable, the goal does not follow:
+    the remaining hypotheses share no symbol with it, so they cannot rule the model out (they are facts about other
+    parts of the state; their joint consistency is what the vacuity canaries watch).  -> model or None"""
+    from .sorts import has_quant
+    hs = [(h, _symbols(h)) for h in ob.hyps]
+    comp = _symbols(ob.goal)
+    if not comp: return None
+    used = [False] * len(hs)
+    changed = True
+    while changed:
+        changed = False
+        for i, (h, sy) in enumerate(hs):
+            if not used[i] and sy & comp:
+                used[i] = True; comp |= sy; changed = True
+    sl = [h for (h, _), u in zip(hs, used) if u]
+    if any(has_quant(h) for h in sl) or has_quant(ob.goal): return None
+    s = z3.Solver(); s.set('timeout', timeout_ms)
+    s.add(*sl); s.add(z3.Not(ob.goal))
+    if s.check() == z3.sat: return s.model()
+    return None
